@@ -200,12 +200,14 @@ package eval
 //@   loop 1 invariant -1 <= i && i < len(defers)
 //@   loop 1 invariant ncalls == len(defers) - 1 - i
 //@   loop 1 invariant forall k int :: 0 <= k && k < ncalls ==> callidx(k) == len(defers) - 1 - k
-//@   loop 1 invariant (exc === nil) == (forall k int :: 0 <= k && k < ncalls ==> callres(k) === nil)
-//@   loop 1 invariant !(exc === nil) ==> (exists k int :: 0 <= k && k < ncalls && callres(k) === exc && (forall j int :: 0 <= j && j < k ==> callres(j) === nil))
+//@   loop 1 invariant exc === nil ==> (forall k int :: 0 <= k && k < ncalls ==> callres(k) === nil)
+//@   loop 1 invariant (forall k int :: 0 <= k && k < ncalls ==> callres(k) === nil) ==> exc === nil
+//@   loop 1 invariant forall k int :: 0 <= k && k < ncalls && !(callres(k) === nil) && (forall j int :: 0 <= j && j < k ==> callres(j) === nil) ==> exc === callres(k)
 //@   exit [each-once] ncalls == len(defers)
 //@   exit [reverse-order] forall k int :: 0 <= k && k < ncalls ==> callidx(k) == len(defers) - 1 - k
-//@   exit [nil-iff-all-succeeded] (exc === nil) == (forall k int :: 0 <= k && k < ncalls ==> callres(k) === nil)
-//@   exit [first-exception-reported] !(exc === nil) ==> (exists k int :: 0 <= k && k < ncalls && callres(k) === exc && (forall j int :: 0 <= j && j < k ==> callres(j) === nil))
+//@   exit [nil-only-if-all-succeeded] exc === nil ==> (forall k int :: 0 <= k && k < ncalls ==> callres(k) === nil)
+//@   exit [nil-if-all-succeeded] (forall k int :: 0 <= k && k < ncalls ==> callres(k) === nil) ==> exc === nil
+//@   exit [first-exception-reported] forall k int :: 0 <= k && k < ncalls && !(callres(k) === nil) && (forall j int :: 0 <= j && j < k ==> callres(j) === nil) ==> exc === callres(k)
 
 // set: the old value is saved BEFORE the variable is set, the variable is set
 // exactly once, and the restore function is handed to the collector exactly when
@@ -252,12 +254,14 @@ package eval
 //@   loop 1 invariant ncalls == len(restoreFuncs) - 1 - i
 //@   loop 1 invariant forall k int :: 0 <= k && k < ncalls ==> callidx(k) == len(restoreFuncs) - 1 - k
 //@   loop 1 invariant !(returned === nil) ==> opExc === returned
-//@   loop 1 invariant returned === nil ==> ((opExc === nil) == (forall k int :: 0 <= k && k < ncalls ==> callres(k) === nil))
+//@   loop 1 invariant returned === nil && opExc === nil ==> (forall k int :: 0 <= k && k < ncalls ==> callres(k) === nil)
+//@   loop 1 invariant returned === nil && (forall k int :: 0 <= k && k < ncalls ==> callres(k) === nil) ==> opExc === nil
 //@   loop 2 invariant ncalls == 0
 //@   exit [every-restore-once] ncalls == len(restoreFuncs)
 //@   exit [reverse-order] forall k int :: 0 <= k && k < ncalls ==> callidx(k) == len(restoreFuncs) - 1 - k
 //@   exit [body-exception-wins] !(returned === nil) ==> opExc === returned
-//@   exit [restore-exception-only-if-body-succeeded] returned === nil ==> ((opExc === nil) == (forall k int :: 0 <= k && k < ncalls ==> callres(k) === nil))
+//@   exit [no-exception-only-if-every-restore-succeeded] returned === nil && opExc === nil ==> (forall k int :: 0 <= k && k < ncalls ==> callres(k) === nil)
+//@   exit [restore-exception-only-if-one-failed] returned === nil && (forall k int :: 0 <= k && k < ncalls ==> callres(k) === nil) ==> opExc === nil
 
 //@ func execLambdaOp
 //@   trusted
